@@ -1,10 +1,16 @@
 -- Library root: every property module (they pull in model, spec, proofs and generated constants).
+import Wee.Props.C01
+import Wee.Props.C02
+import Wee.Props.C02Closed
+import Wee.Props.C05
 import Wee.Props.C08
 import Wee.Props.C09
 import Wee.Props.C10Closed
 import Wee.Props.C11
 import Wee.Props.C12
+import Wee.Props.C13
 import Wee.Props.C15
 import Wee.Props.C20
 import Wee.Model.Search
 import Wee.Spec.San
+import Wee.Spec.Outcome
